@@ -195,10 +195,11 @@ unique_ptr<DiscreteDistributionInterface> BppODiscreteDistributionFormat::readDi
         catch (Exception& e)
         {}
 
+      // (n, alpha, beta, minimumAlpha, minimumBeta, paramOffset, offset)
       if (args.find("ParamOffset") != args.end())
-        rDist.reset(new GammaDiscreteDistribution(nbClasses, 1, 1, true, offset));
+        rDist.reset(new GammaDiscreteDistribution(nbClasses, 1, 1, 0.05, 0.05, true, offset));
       else
-        rDist.reset(new GammaDiscreteDistribution(nbClasses, 1, 1, false, offset));
+        rDist.reset(new GammaDiscreteDistribution(nbClasses, 1, 1, 0.05, 0.05, false, offset));
 
       if (args.find("alpha") != args.end())
         unparsedArguments_["Gamma.alpha"] = args["alpha"];
